@@ -150,6 +150,44 @@ def replay_hooks():
     return ("hook replay catalogue", False, "")
 
 
+def reemit_roundtrip(rep: C.Report) -> None:
+    """Ob5: a call that is not expanded comes back as a call with the same name and arguments at every nesting depth.  The
+    expander re-emits such calls through placeholders whose arguments may again hold placeholders, so the final substitution
+    must run to a fixed point (structural fact shared with C15 Ob7); if it does not, nested unselected / switched-off calls
+    are replayed: the text must come back unchanged."""
+    ob = rep.add(C.Ob("Ob5 unexpanded calls are re-emitted with all their nested arguments (finalisation runs to a fixed point)", "AST fact + replay", ["core.py:Wtp._finalize_expand"], "nesting depth unbounded (loop structure); replay depth 1..6 under 3 option sets"))
+    try:
+        from props import C15 as P15
+
+        fn = P15.finalize_fn()
+        if fn is None:
+            ob.verdict, ob.detail = C.NOT_ENCODABLE, "_finalize_expand not found"
+            return
+        ob.conditions = ob.queries = ob.paths = 1
+        if P15.fixpoint_loop(fn):
+            ob.verdict = C.DISCHARGED
+            ob.confirmed_conditions = 1
+            return
+        from wikitextprocessor import Wtp
+
+        w = Wtp(quiet=True, quiet_output=True)
+        w.start_page("T")
+        d = "z"
+        for depth in range(1, 7):
+            d = "{{o%d|%s}}" % (depth, d)
+            for doc, kw in (("{{#if:x|%s}}" % d, dict(pre_expand=True, expand_parserfns=False, templates_to_expand=set())), (d, dict(pre_expand=True, templates_to_expand=set())), ("{{#invoke:m|f|%s}}" % d, dict(pre_expand=True, expand_invoke=False, templates_to_expand=set()))):
+                out = w.expand(doc, **kw)
+                if out != doc:
+                    opts = ", ".join(f"{k}={v!r}" for k, v in kw.items())
+                    v = rep.violation(f"expand({doc!r}, {opts})", f"nothing is selected, but the text does not come back unchanged: {out!r}", {"doc": doc})
+                    ob.verdict = C.VIOLATED if v.known is None else C.KNOWN
+                    ob.confirmed_conditions = 1
+                    return
+        ob.detail = "no fixed-point loop around the placeholder substitution, but nested unexpanded calls up to depth 6 come back unchanged -> inconclusive"
+    except Exception as e:  # noqa: BLE001
+        ob.detail += f"{type(e).__name__}: {e}"
+
+
 def run(rep: C.Report) -> None:
     quick = C.tier() == "quick"
     rep.explanation = (
@@ -177,6 +215,7 @@ def run(rep: C.Report) -> None:
     except Exception as e:  # noqa: BLE001
         rep.add(C.Ob("Ob1/Ob2 kernels", "E1 CrossHair", [], "", verdict=C.NOT_ENCODABLE, detail=f"{type(e).__name__}: {e}"))
     hook_paths(rep)
+    reemit_roundtrip(rep)
 
 
 def replay(r: dict) -> int:
